@@ -398,7 +398,7 @@ pub fn check(s: &'static dyn Proto, c: &Case, st: &mut Stats, _k: &KnownFindings
 }
 
 pub const BUDGET: Budget = Budget {
-    quick: (240, 90, 30),
+    quick: (1000, 360, 110),
     thorough: (1500, 500, 150),
     shrink: 200,
 };
